@@ -41,7 +41,13 @@ RULE = ("prepared screens: S.gen_raw, arity 1-3 (mostly 1-2), 2-8 plates, 4..14 
         "save_h5+load_h5 through a temp file, and cli.reveal_plate.main() on saved files; a raising step ends the history. "
         "The DESIGN section-7 #1 witness always runs first, then a fixed corpus in which one sample / (treatment, dose) occurs only in "
         "held-out rows and sorts at the START, in the MIDDLE and at the END of the names, each with histories that save+load (library and "
-        "CLI) repeatedly on both sides.  TRAINING stage (class.entry-point.train_model): a fixed corpus (only the last-sorting / first / a middle sample's plate revealed after "
+        "CLI) repeatedly on both sides.  PREPARE command (class.entry-point.prepare_retrospective_simulation): a fixed corpus (a one-plate sample `A_rare` that sorts first and a "
+        "(treatment, dose) that only it uses; NPlatePerCellLineSmoother 2 / 3, FixedSizeSmoother, OptimalSizeSmoother, none; several seeds) and 28 "
+        "generated configurations per quick run cycling every initial generator x generator x smoother (harness/prep_pipeline.py's generator) "
+        "run the real batchie.cli.prepare_retrospective_simulation.main() on files; on the TWO files it writes: same sample name => same id, same "
+        "(treatment, dose) => same id across training and test (rows and stored mappings), embedding sizes of training cover the test ids; the "
+        "lifecycle (reveal / save+load / reveal_plate CLI / train_model CLI) then continues from the training file with the same oracles and the "
+        "model tie.  TRAINING stage (class.entry-point.train_model): a fixed corpus (only the last-sorting / first / a middle sample's plate revealed after "
         "hold-out + mask, saved, seeds 0 and 7) and 45% of the arity-2 training histories end with the real batchie.cli.train_model.main() on the "
         "saved screen with a recording subclass of SparseDrugCombo found by the CLI's introspection: the (sample id, treatment ids) reaching "
         "_add_observations decode through the PREPARED screen's mappings to the row's names/doses, the rows are the observed rows, and the saved "
@@ -63,6 +69,7 @@ SIG_PRED = "C03:prediction-changed"
 SIG_INPUT = "C03:input-mutated"
 SIG_XPROC = "C03:other-process-differs"
 SIG_TRAIN = "C03:training-ids"
+SIG_PREP = "C03:prepared-screens-disagree"
 
 OBS_VALUES = [1.0, 0.5, 0.25, 0.75, 1e-300, 0.3333333333333333, 0.9, 0.1, 2.0, 0.7000000000000001]
 NAN_BITS = [0x7FF8000000000000, 0x7FF8000000000001, 0xFFF8000000000000]
@@ -956,6 +963,188 @@ def train_corpus_cases():
     return out
 
 
+# ----------------------------------------------------------------------------- the simulation as the real prepare command writes it
+
+def prepare_corpus(rng):
+    """fixed corpus for the prepare command: one plate per row group, one sample per plate; the sample `A_rare` has ONE plate and sorts
+    before the kept samples, so a smoother that drops it (NPlatePerCellLineSmoother min 2) re-encodes whatever screen it is applied to;
+    FixedSize / OptimalSize drop / truncate plates.  Several seeds (the revealed first plate is drawn)."""
+    layout = [("A_rare", "pa", 3), ("B_line", "pb1", 3), ("B_line", "pb2", 4), ("C_line", "pc1", 3), ("C_line", "pc2", 3), ("D_line", "pd1", 2),
+              ("D_line", "pd2", 3), ("D_line", "pd3", 2)]
+    tn, td, sn, pn = [], [], [], []
+    k = 0
+    for smp, plate, n in layout:
+        for i in range(n):
+            a, b = ("t%d" % (1 + (k + i) % 3), "u%d" % (1 + (k // 2 + i) % 2))
+            tn.append([a, b] if i % 2 == 0 else [b, a])
+            td.append([1.0, 2.0] if i % 2 == 0 else [2.0, 1.0])
+            sn.append(smp)
+            pn.append(plate)
+        k += 1
+    # u9 occurs only with the rare sample: a (treatment, dose) that disappears with it -- it sorts after u1/u2, t9 before them
+    tn[0], td[0] = ["t0", "u9"], [1.0, 2.0]
+    tn[1], td[1] = ["u9", "t0"], [2.0, 1.0]
+    raw = dict(ctrl="control", arity=2, tnames=tn, tdoses=td, snames=sn, pnames=pn, obs=[0.05 + 0.03 * i for i in range(len(sn))],
+               mask=None, tmap=None, smap=None)
+    out = []
+    for sm, params in (("sm-nplate", {"k": 2}), ("sm-nplate", {"k": 3}), ("sm-fixed", {"k": 3}), ("sm-opt", {}), (None, {})):
+        for seed in ((0, 1, 2, 3) if sm == "sm-nplate" else (0, 5)):
+            pc = {"op": "pipeline", "raw": raw, "npseed": seed,
+                  "params": {"init": None, "gen": None, "sm": None if sm is None else {"op": sm, "params": params}, "fraction": rng.choice([0.34, 0.5, 0.25])}}
+            out.append({"kind": "prepare", "pcase": pc, "obs_bits": obs_bits_list(raw), "ops": [["r", [0, 1]], ["s"], ["cli", [2]]],
+                        "train": {"seed": seed}, "theta_seed": 3, "dim": 2, "corpus": True})
+    return out
+
+
+class FromFiles:
+    """the pair of screens one run of the prepare command wrote, in the shape the lifecycle oracles expect"""
+
+    def __init__(self, train, test, case):
+        self.orig = train
+        self.test = test
+        self.keep = train
+        self.ref = Reference(train, case["theta_seed"], case["dim"])
+
+
+def relation(scr):
+    tm, sm = scr.treatment_mapping, scr.sample_mapping
+    return ({(str(a), S.bits(b)): int(c) for a, b, c in zip(*tm)}, {str(a): int(c) for a, c in zip(*sm)})
+
+
+def check_pair(train, test, case, res):
+    """clause 1 on the two files of ONE prepared simulation: the same sample name / (treatment, dose) has the same id in the training
+    and in the test screen (rows and stored mappings), and the embedding sizes implied by the training screen cover the test ids"""
+    from batchie.data import ExperimentSpace
+    tt, ts = relation(train)
+    for name, scr in (("training", train), ("test", test)):
+        if scr is None:
+            continue
+        ut, us = relation(scr)
+        sn = [str(x) for x in scr.sample_names]
+        si = [int(x) for x in scr.sample_ids]
+        for i in range(len(sn)):
+            if sn[i] in ts and ts[sn[i]] != si[i]:
+                res.fail("a sample has different ids in the training and the test screen written by ONE prepare_retrospective_simulation run", case,
+                         {"screen": name, "row": i, "sample": sn[i], "id": si[i]}, {"id_in_training_screen_mapping": ts[sn[i]]}, signature=SIG_PREP)
+                return True
+        tn = [[str(x) for x in r] for r in scr.treatment_names]
+        td = [[S.bits(x) for x in r] for r in scr.treatment_doses]
+        ti = [[int(x) for x in r] for r in np.asarray(scr.treatment_ids).tolist()] if len(sn) else []
+        for i in range(len(sn)):
+            for j in range(len(tn[i])):
+                key = (tn[i][j], td[i][j])
+                if key in tt and tt[key] != ti[i][j]:
+                    res.fail("a (treatment, dose) has different ids in the training and the test screen written by ONE "
+                             "prepare_retrospective_simulation run", case,
+                             {"screen": name, "row": i, "treatment": key[0], "dose": S.from_bits(key[1]), "id": ti[i][j]},
+                             {"id_in_training_screen_mapping": tt[key]}, signature=SIG_PREP)
+                    return True
+        for k_, v in us.items():
+            if k_ in ts and ts[k_] != v:
+                res.fail("the stored sample mappings of the training and the test screen of one prepared simulation disagree on a common name", case,
+                         {"sample": k_, "id_in_%s" % name: v}, {"id_in_training": ts[k_]}, signature=SIG_PREP)
+                return True
+        for k_, v in ut.items():
+            if k_ in tt and tt[k_] != v:
+                res.fail("the stored treatment mappings of the training and the test screen of one prepared simulation disagree on a common "
+                         "(treatment, dose)", case, {"treatment": k_[0], "dose": S.from_bits(k_[1]), "id_in_%s" % name: v},
+                         {"id_in_training": tt[k_]}, signature=SIG_PREP)
+                return True
+    if test is not None and int(test.size) > 0:
+        sp = ExperimentSpace.from_screen(train)
+        need_t = max([int(x) for x in np.asarray(test.treatment_ids).reshape(-1)], default=-1)
+        need_s = max([int(x) for x in test.sample_ids], default=-1)
+        if need_t >= int(sp.n_unique_treatments) or need_s >= int(sp.n_unique_samples):
+            res.fail("the embedding sizes implied by the training screen do not cover the ids of the test screen of the same prepared simulation", case,
+                     {"n_unique_treatments": int(sp.n_unique_treatments), "n_unique_samples": int(sp.n_unique_samples)},
+                     {"max_treatment_id_in_test": need_t, "max_sample_id_in_test": need_s}, signature=SIG_SPACE)
+            return True
+    return False
+
+
+def run_prepare_case(case, tmp, res, gen=None):
+    """the real `prepare_retrospective_simulation.main()` (argv + files), clause 1 on the two files it writes, then the lifecycle
+    (reveal / save+load / reveal_plate CLI / training through train_model.main()) continued from the training file.
+    Returns (model line, entries) for the tie or None."""
+    from batchie.cli import prepare_retrospective_simulation as prep_cli
+    from batchie.data import Screen
+    from harness import prep_pipeline as PP
+    with maybe_verbose(case):
+        pc = dict(case["pcase"])
+        raw = dict(pc["raw"])
+        if case.get("obs_bits") is not None:
+            raw["obs"] = [S.from_bits(b) for b in case["obs_bits"]]
+        d = os.path.join(tmp, "prep")
+        shutil.rmtree(d, ignore_errors=True)
+        os.makedirs(d)
+        try:
+            S.build(raw).save_h5(os.path.join(d, "in.h5"))
+        except Exception:
+            res.count("prepare.input-not-constructible")
+            return None
+        try:
+            run_main(prep_cli, PP.argv_of(pc, d))
+        except Exception as e:
+            res.count("prepare.refused." + type(e).__name__)         # the property does not demand that every configuration can be prepared
+            return None
+        try:
+            train = Screen.load_h5(os.path.join(d, "train.h5"))
+        except Exception:
+            res.count("prepare.training-file-not-loadable")          # zero-row training screen: known finding C02:zero-row-screen
+            return None
+        try:
+            test = Screen.load_h5(os.path.join(d, "test.h5"))
+        except Exception:
+            test = None
+            res.count("prepare.test-file-not-loadable")              # fraction 0: zero-row test screen (known finding C02:zero-row-screen)
+        res.count("class.entry-point.prepare_retrospective_simulation")
+        sm = pc["params"]["sm"]
+        res.count("prepare.smoother.%s" % (sm["op"] if sm else "none"))
+        if int(train.size) < int(S.build(raw).size) - (int(test.size) if test is not None else 0):
+            res.count("prepare.rows-dropped")
+        if len(set(str(x) for x in train.sample_names) | (set(str(x) for x in test.sample_names) if test is not None else set())) < len(set(raw["snames"])):
+            res.count("prepare.sample-dropped")
+        if check_pair(train, test, case, res):
+            return None
+        # ---- the lifecycle continued from the files
+        prep = FromFiles(train, test, case)
+        ref = prep.ref
+        rows = np.arange(int(train.size))
+        entries = [("stage", show_stage(train))]
+        failed, sizes = check_stage(ref, train, rows, (ref.n_t, ref.n_s), case, "training file", res)
+        cur = train
+        done = []
+        ops = case["ops"] if gen is None else None
+        t = 0
+        while not failed:
+            if gen is None:
+                if t >= len(ops):
+                    break
+                op = ops[t]
+            else:
+                if t >= case["n_ops"]:
+                    break
+                op = gen_op(gen, cur, False)
+            t += 1
+            done.append(op)
+            try:
+                cur = apply_op(cur, op, tmp)
+            except Exception as e:
+                entries.append(("cli" if op[0] == "cli" else "stage", S.err_tok(e)))
+                break
+            entries.append(("cli" if op[0] == "cli" else "stage", show_stage(cur)))
+            failed, sizes = check_stage(ref, cur, rows, sizes, dict(case, ops=list(done)), "op %d: %s" % (t - 1, op_tok(op)), res)
+            if not failed and check_pair(cur, test, dict(case, ops=list(done)), res):
+                failed = True
+        if gen is not None:
+            case["ops"] = done
+        if not failed and not entries[-1][1].startswith("err:") and case.get("train") and trainable_with(prep, cur):
+            train_stage(prep, cur, dict(case, ops=list(done)), tmp, res, "training stage after prepare + %d op(s)" % len(done))
+            res.count("class.entry-point.train_model")
+        line = "hist " + ("+".join(op_tok(o) for o in done) if done else "-") + " " + S.raw_to_tokens(S.raw_of_screen(train, with_maps=True))
+        return line, entries
+
+
 def name_positions(orig, hs, ht):
     """where the hold-out-only names sit in the sort order of the prepared screen's mapping names: start / middle / end"""
     out = set()
@@ -1129,6 +1318,30 @@ def run(ctx, res):
                     res.sample({"kind": prep_kind, "split": kind_split, "side": side, "premask": base["premask"],
                                 "hold-out-only": {"samples": hs, "treatments": [list(x) for x in ht]},
                                 "ops": "+".join(op_tok(o) for o in case["ops"]), "line": line[:260]})
+        # ---- the simulation as the real prepare command writes it (every smoother x generator x fraction, incl. those that DROP samples)
+        from harness import prep_pipeline as PP
+        pcases = prepare_corpus(rng)
+        combos_ = PP.combos(ctx.scale(28, 400, 200), rng.randrange(84))
+        for i_, combo in enumerate(combos_):
+            pc = PP.gen_case(rng, combo)
+            pcases.append({"kind": "prepare", "pcase": pc, "obs_bits": obs_bits_list(pc["raw"]), "ops": [], "n_ops": rng.randint(1, 4),
+                           "train": {"seed": rng.choice([0, 1, 7])} if rng.random() < 0.3 else None, "theta_seed": rng.randrange(2 ** 31),
+                           "dim": 2, "verbose": i_ % 7 == 3})
+        for case in pcases:
+            if time.time() - t_start > budget + 15:
+                res.notes.append("time budget reached inside the prepare stream")
+                break
+            res.evaluations += 1
+            if case.get("verbose"):
+                res.count("class.verbose-logging")
+            try:
+                out = run_prepare_case(case, tmp, res, gen=None if case.get("corpus") else rng)
+            except Exception as e:
+                res.count("prepare.harness-or-impl-exception." + type(e).__name__)
+                res.disagree("C03:prepare-stream", {"pcase": str(case["pcase"]["params"])[:300]}, "%s: %s" % (type(e).__name__, e), "the stream runs")
+                continue
+            if out is not None:
+                queue.append((out[0], out[1], {"side": "prepared-files", "split": {"fn": "cli"}, "ops": case["ops"], "premask": False}))
         if xproc:
             # cross-process determinism: a saved training half loads to the same ids / mappings in another interpreter
             try:
@@ -1171,6 +1384,9 @@ def replay(ctx, case, res):
     tmp = tempfile.mkdtemp(prefix="verif_c03_")
     try:
         case = {k: v for k, v in case.items() if k != "failing_step"}
+        if case.get("kind") == "prepare":
+            run_prepare_case(case, tmp, res)
+            return
         try:
             prep = Prepared(case)
         except Exception as e:
